@@ -1,7 +1,7 @@
 //! C08 — Program accounts are admitted iff owner and discriminant match.
 //!
-//! Grid (quick = thorough = the whole grid; thorough adds more PRNG cases): for each of the 22
-//! account types (7 discriminant widths × zero-copy/fixed-borsh/variable-borsh + the closed-marker
+//! Grid (quick = thorough = the whole grid; thorough adds more PRNG cases): for each of the 40
+//! account types (13 discriminant widths 0,1,2,3,4,5,6,7,8,12,16,24,32 × zero-copy/fixed-borsh/variable-borsh + the closed-marker
 //! type): owner ∈ {program id, each of its 256 single-bit flips, System}; data length 0..W+3 (and
 //! W+8); discriminant prefix ∈ {exact, every single-byte deviation, all-0xFF, all-zero}; writable
 //! t/f; data borrowed (exclusively / 7 shared / 1 shared) or not; then `close_account` and
@@ -34,6 +34,7 @@ impl Oracle for C08Oracle {
         }
         let Some(pre) = pre else { return };
         let w = pre.w();
+        let body = pre.kind.body_ok();
         let can_read = self.borrow == "none" || self.borrow == "shared";
         let admit = pre.admitted();
         let detail = || format!("{line} -> {ans}; owner={} data={} writable={} disc={} borrow={}", hex(&pre.owner), hex(&pre.data), pre.writable, hex(&pre.disc), self.borrow);
@@ -54,12 +55,12 @@ impl Oracle for C08Oracle {
                     if pre.writable && !admit {
                         rec.fail("view_without_admission", &detail());
                     }
-                    if pre.data.len() < w + 2 || v != hex(&pre.data[w..w + 2]) {
+                    if pre.data.len() < w + body || v != hex(&pre.data[w..w + body]) {
                         rec.fail("view_wrong_bytes", &detail());
                     }
                 } else if ans == "panic" {
                     rec.fail("data_panics", &detail());
-                } else if admit && can_read && pre.data.len() >= w + 2 {
+                } else if admit && can_read && pre.data.len() >= w + body {
                     rec.fail("view_refused_for_admitted_account", &detail());
                 }
             }
@@ -70,12 +71,12 @@ impl Oracle for C08Oracle {
                     } else if !admit {
                         rec.fail("view_without_admission", &detail());
                     }
-                    if pre.data.len() < w + 2 || v != hex(&pre.data[w..w + 2]) {
+                    if pre.data.len() < w + body || v != hex(&pre.data[w..w + body]) {
                         rec.fail("view_wrong_bytes", &detail());
                     }
                 } else if ans == "panic" {
                     rec.fail("data_mut_panics", &detail());
-                } else if admit && pre.writable && self.borrow == "none" && pre.data.len() >= w + 2 {
+                } else if admit && pre.writable && self.borrow == "none" && pre.data.len() >= w + body {
                     rec.fail("view_refused_for_admitted_account", &detail());
                 }
             }
@@ -145,7 +146,7 @@ fn observe_ops(d: &mut Driver<C08Oracle>, kind: Kind, borrows: bool, close: bool
     };
     count(d.op("decode"));
     count(d.op("validate"));
-    if kind == Kind::Zc {
+    if kind.is_zc() {
         count(d.op("data"));
         count(d.op("data_mut"));
     }
@@ -154,7 +155,7 @@ fn observe_ops(d: &mut Driver<C08Oracle>, kind: Kind, borrows: bool, close: bool
             d.op(&format!("borrow {b}"));
             count(d.op("decode"));
             count(d.op("validate"));
-            if kind == Kind::Zc {
+            if kind.is_zc() {
                 count(d.op("data"));
                 count(d.op("data_mut"));
             }
@@ -167,7 +168,7 @@ fn observe_ops(d: &mut Driver<C08Oracle>, kind: Kind, borrows: bool, close: bool
         d.op("bytes");
         count(d.op("decode"));
         count(d.op("validate"));
-        if kind == Kind::Zc {
+        if kind.is_zc() {
             count(d.op("data"));
             count(d.op("data_mut"));
         }
@@ -222,11 +223,7 @@ pub fn run(args: &Args) {
             (e.kind, e.prog_id, e.disc.clone())
         };
         let w = disc.len();
-        let body_ok = match kind {
-            Kind::Zc => 2,
-            Kind::Fix => 3,
-            Kind::Var => 9,
-        };
+        let body_ok = kind.body_ok();
         d.rec.bump(&format!("type:{}:w{w}", kind.name()));
         // (a) owner sweep on the exact data: id, every single-bit flip, System
         let exact: Vec<u8> = patterns(kind, &disc, w + body_ok, false)[0].1.clone();
@@ -253,7 +250,9 @@ pub fn run(args: &Args) {
         let mut lens: Vec<usize> = (0..=w + 3).collect();
         lens.push(w + 9);
         for &len in &lens {
-            let full = true;
+            // every position x 8 bit values at every length; for the wide discriminants (> 16 bytes) at the lengths
+            // around the boundaries only (first / last position elsewhere)
+            let full = w <= 16 || len + 1 >= w || len <= 1;
             for (pname, data) in patterns(kind, &disc, len, full) {
                 let key = pname.starts_with("dev");
                 for writable in [true, false] {
